@@ -10,12 +10,13 @@ Definition dec_event (x : sx) : event :=
   | 0%N => EConnectReq | 1%N => EConnectCall | 2%N => EDisconnectReq | 3%N => EDispConnected
   | 4%N => ESockError | 5%N => EPeerClose | 6%N => ESuccess | 7%N => EFailure
   | 8%N => EStreamError (dec_kind a) | 9%N => EPong a | 10%N => ETick | 11%N => EAppSend
+  | 13%N => EKeysResult | 14%N => EKeysError
   | _ => ELoop
   end.
 
 Definition dec_cfg (x : sx) : cfg :=
   mkCfg (sx_get_bool (sx_nth x 0)) (sx_get_bool (sx_nth x 1)) (sx_get_bool (sx_nth x 2))
-        (sx_get_bool (sx_nth x 3)) (sx_get_bool (sx_nth x 4)).
+        (sx_get_bool (sx_nth x 3)) (sx_get_bool (sx_nth x 4)) (sx_get_bool (sx_nth x 5)).
 
 Definition enc_reason (r : reason) : N := match r with RNone => 0 | RAuthFail => 1 | RPing => 2 end.
 Definition enc_kind (k : kind) : N := match k with KConflict => 0 | KAck => 1 | KXml => 2 end.
@@ -35,6 +36,7 @@ Definition enc_obs (o : obs) : sx :=
   | OWrite WHeader up => SL [SN 4; SN 3; SN 0; SN 0; SN (nb up)]
   | OWrite (WPing i) up => SL [SN 4; SN 3; SN 1; SN i; SN (nb up)]
   | OWrite WApp up => SL [SN 4; SN 3; SN 2; SN 0; SN (nb up)]
+  | OWrite WKeys up => SL [SN 4; SN 3; SN 4; SN 0; SN (nb up)]
   | OHandshake b => SL [SN 5; SN (nb b)]
   | OApp ASuccess => SL [SN 6; SN 0; SN 0]
   | OApp AFailure => SL [SN 6; SN 1; SN 0]
@@ -51,7 +53,8 @@ Definition enc_state (s : state) : sx :=
       SN (orphans s);
       SN (match nz s with NzInit => 0 | NzHandshake => 1 | NzTransport => 2 end);
       SN (nb (recon s)); SN (nb (pth s));
-      SN (N.of_nat (length (pq s))); SN (N.of_nat (length (dq s)))].
+      SN (N.of_nat (length (pq s))); SN (N.of_nat (length (dq s)));
+      SN (nb (psv s)); SN (nb (ud s)); SN (nb (kp s)); SN (nb (um s)); SN (nb (rb s))].
 
 (* per step: (in-domain?  observations  state-after); the run continues past out-of-domain events *)
 Fixpoint trace_steps (c : cfg) (s : state) (h : list event) : list sx :=
@@ -62,14 +65,14 @@ Fixpoint trace_steps (c : cfg) (s : state) (h : list event) : list sx :=
     SL [sx_bool (enabled c s e); SL (map enc_obs o1); enc_state s1] :: trace_steps c s1 h'
   end.
 
-(* arg: ((reconnect passive ping fix_create fix_destroy) ((tag arg) ...)) *)
+(* arg: ((reconnect passive ping fix_create fix_destroy unsent) ((tag arg) ...)) *)
 Definition run_hist (arg : sx) : sx :=
-  SL (trace_steps (dec_cfg (sx_nth arg 0)) init (map dec_event (sx_get_l (sx_nth arg 1)))).
+  SL (trace_steps (dec_cfg (sx_nth arg 0)) (init (dec_cfg (sx_nth arg 0))) (map dec_event (sx_get_l (sx_nth arg 1)))).
 
 (* the monitors of the statements, run on the model's own trace: (mon accepts?  proj equalities hold?) *)
 Definition run_monitors (arg : sx) : sx :=
   let c := dec_cfg (sx_nth arg 0) in
-  let '(s, tr) := exec_any c init (map dec_event (sx_get_l (sx_nth arg 1))) in
+  let '(s, tr) := exec_any c (init c) (map dec_event (sx_get_l (sx_nth arg 1))) in
   SL [sx_bool (match mon_run MIdle tr with Some _ => true | None => false end);
       SN (N.of_nat (countb is_down_write tr)); SN (N.of_nat (countb is_raise tr)); SN (orphans s)].
 
@@ -85,10 +88,10 @@ Fixpoint filter_steps (c : cfg) (s : state) (h : list event) (idx : N) : list sx
   end.
 
 Definition run_filter (arg : sx) : sx :=
-  SL (filter_steps (dec_cfg (sx_nth arg 0)) init (map dec_event (sx_get_l (sx_nth arg 1))) 0).
+  SL (filter_steps (dec_cfg (sx_nth arg 0)) (init (dec_cfg (sx_nth arg 0))) (map dec_event (sx_get_l (sx_nth arg 1))) 0).
 
 (* arg: (cfg prefix candidates) -> which candidates are in the domain after the prefix *)
 Definition run_enabled (arg : sx) : sx :=
   let c := dec_cfg (sx_nth arg 0) in
-  let '(s, _) := exec_any c init (map dec_event (sx_get_l (sx_nth arg 1))) in
+  let '(s, _) := exec_any c (init c) (map dec_event (sx_get_l (sx_nth arg 1))) in
   SL (map (fun x => sx_bool (enabled c s (dec_event x))) (sx_get_l (sx_nth arg 2))).
